@@ -15,7 +15,7 @@ RULE = (
     "real pytest sessions over generated files with 1-4 test functions, each with 1-4 sites whose status is "
     "chosen by the generator: ok (the comparison holds), wrong (some comparison fails against the value in the "
     "source) or missing (empty call / missing sub-snapshot key); all five operations, loops where only a later "
-    "iteration is wrong (also for ==, where the value in the source matches the first evaluations), module-level sites shared by several tests, asserting bodies; flags: every subset of "
+    "iteration is wrong, an outer snapshot evaluated twice that selects a second (wrong or empty) conditional inner snapshot the second time (also for ==, where the value in the source matches the first evaluations), module-level sites shared by several tests, asserting bodies; flags: every subset of "
     "the categories alone or with report / review (random y/n answers) / short-report, no flags at all, and "
     "disable. Which sites a test *executed* is observed, not modelled: the body appends a marker to a side "
     "file immediately before each comparison. Oracle (junit + exit status): a test that executed a wrong or "
@@ -30,7 +30,7 @@ CATS = ["create", "fix", "trim", "update"]
 
 @st.composite
 def _site(draw, idx):
-    op = draw(st.sampled_from(["eq", "le", "ge", "in", "getitem", "eq", "le", "in"]))
+    op = draw(st.sampled_from(["eq", "le", "ge", "in", "getitem", "eq", "le", "in", "cond"]))
     status = draw(st.sampled_from(["ok", "ok", "wrong", "missing", "wrongtype"]))
     if status == "wrongtype" and op not in ("le", "ge"):
         status = "wrong"
@@ -129,7 +129,7 @@ def render(case):
     module_sites = []
     for ti, sites in enumerate(case["tests"]):
         for s in sites:
-            if s["place"] == "module":
+            if s["place"] == "module" and s["op"] != "cond":
                 arg, _ = site_code(s)
                 lines.append(f"S{s['id']} = snapshot({arg})")
                 module_sites.append((ti, s))
@@ -145,8 +145,17 @@ def render(case):
         if case["share"] and ti > 0:
             use += [s for t, s in module_sites if t == ti - 1]
         for s in use:
-            arg, xs = site_code(s)
             tag = f"t{ti}r%d.s{s['id']}"
+            if s["op"] == "cond":
+                # an outer snapshot that is evaluated twice and selects another inner snapshot the second time
+                # (docs/eq_snapshot.md, conditional snapshots); the bad one is the second
+                a, b = s["xs"][0], s["xs"][-1] + 100
+                inner_b = {"ok": repr(b), "wrong": repr(b + 1), "wrongtype": repr(b + 1), "missing": ""}[s["status"]]
+                lines.append(f"    for c, x in [(0, {a}), (1, {b})]:")
+                lines += [f"        mark({tag!r} % r)",
+                          f"        assert [x, 1] == snapshot([snapshot({a}) if c == 0 else snapshot({inner_b}), 1])"]
+                continue
+            arg, xs = site_code(s)
             if s["place"] == "module":
                 for x in xs:
                     lines += [f"    mark({tag!r} % r)", "    " + cmp_line(s, f"S{s['id']}", x)]
